@@ -106,7 +106,7 @@ _PATH_SAFE = _UNRESERVED_CHARS | _SUB_DELIMS | set(':@')
 _PATH_DELIMS = _ALL_DELIMS - _PATH_SAFE
 _FRAGMENT_SAFE = _UNRESERVED_CHARS | _PATH_SAFE | set('/?')
 _FRAGMENT_DELIMS = _ALL_DELIMS - _FRAGMENT_SAFE
-_QUERY_SAFE = _UNRESERVED_CHARS | _FRAGMENT_SAFE - set('&=+')
+_QUERY_SAFE = _UNRESERVED_CHARS | _FRAGMENT_SAFE - set('&;=+')
 _QUERY_DELIMS = _ALL_DELIMS - _QUERY_SAFE
 
 
